@@ -271,6 +271,9 @@ func (env *SpecEnv) binary(x *SBinary) Val {
 			}
 		}
 		u.d.declarePow2()
+		if a.T == "1" {
+			return Val{T: app("pow2", b.T), Ty: a.Ty, So: "Int"}
+		}
 		return Val{T: app("*", a.T, app("pow2", b.T)), Ty: a.Ty, So: "Int"}
 	case ">>":
 		u.d.declarePow2()
